@@ -174,7 +174,11 @@ class GenDAGPass( BasePass ):
           if t.__name__ in _globals:
             assert t is _globals[ t.__name__ ], "Cannot handle two subfields with the same struct name but different structs"
           _globals[ t.__name__ ] = t
-        wstr = repr(writer)
+        # The repr of a constant cannot always be evaluated (a plain Bits
+        # object, e.g. the result of K[4:8], prints as Bits4(..)): hand
+        # the constant itself to the block
+        _globals[ '_net_const' ] = writer._dsl.const
+        wstr = '_net_const'
 
       else:
         wstr = f"s.{repr(writer)[lca_len+1:]}"
